@@ -241,6 +241,19 @@ def check_version(case, ctx):
                             "(%s...): testnet=%r watch_only=%r" % (v, s[:8], w.testnet, w.watch_only))
 
 
+def _cold_build(it):
+    k, c, depth, index, pfp, v = it
+    if depth == 0:
+        index, pfp = 0, b"\x00" * 4
+    ref = R.Node.from_priv(k, c, depth, index, pfp)
+    typ, testnet, purpose = R.SLIP132[v]
+    private = typ == "prv"
+    s = b58.encode_check(ref.payload(v, private))
+    cls = "PrvKeyNode" if private else "PubKeyNode"
+    meth = "extended_private_key" if private else "extended_public_key"
+    return (["bip32", cls + ".parse", [s, testnet], [[meth, [v]]]], s, "%s.parse(%s...).%s(%#x)" % (cls, s[:8], meth, v))
+
+
 def clauses():
     return [
         Clause("roundtrip", check_roundtrip,
@@ -263,4 +276,7 @@ def clauses():
                enum=enum_versions, gen=gen_versions, exhaustive=True,
                enum_desc="12 known versions, 8 multisig, 384 one-bit neighbours, 6 edge values",
                n={"quick": 1500, "thorough": 100000}, shards={"quick": 8, "thorough": 16}),
+        __import__("vlib.cold", fromlist=["x"]).cold_clause(
+            "C07", st.tuples(S.scalars(), S.chain_codes(), st.sampled_from([0, 1, 3, 255]), S.indexes(), S.fingerprints(), st.sampled_from(VERSIONS)),
+            _cold_build, "parse an extended key and serialise it again under its version"),
     ]
